@@ -178,6 +178,75 @@ func verifC06CheckIntact(rec *verifkit.Rec, k *crypto.Key, specs []verifBlobSpec
 	return ok
 }
 
+// verifC06RefHeader is the harness' own encoding of a pack header (reference model of the
+// documented format: type byte, length LE32, [uncompressed length LE32], id).
+func verifC06RefHeader(specs []verifBlobSpec) (hdr []byte, sizes []int) {
+	for _, s := range specs {
+		tb := byte(0)
+		if s.Type == restic.TreeBlob {
+			tb = 1
+		}
+		if s.ULen != 0 {
+			tb += 2
+		}
+		start := len(hdr)
+		hdr = append(hdr, tb)
+		hdr = binary.LittleEndian.AppendUint32(hdr, uint32(s.Len))
+		if s.ULen != 0 {
+			hdr = binary.LittleEndian.AppendUint32(hdr, uint32(s.ULen))
+		}
+		hdr = append(hdr, s.ID[:]...)
+		sizes = append(sizes, len(hdr)-start)
+	}
+	return hdr, sizes
+}
+
+// verifC06Authentic builds packs whose header is authentic (sealed with the right key) but whose
+// plaintext is malformed: last entry cut short, an undefined type byte, trailing bytes shorter
+// than an entry. List has to return an error for each, never panic.
+func verifC06Authentic(rec *verifkit.Rec, rng *verifkit.RNG, k *crypto.Key, specs []verifBlobSpec, blobArea []byte, ci int) int {
+	hdr, sizes := verifC06RefHeader(specs)
+	last := sizes[len(sizes)-1]
+	type variant struct {
+		Name  string
+		Plain []byte
+	}
+	var vs []variant
+	cuts := []int{1, 2, last - 37, last - 36, last - 33, last - 32, last - 5, last - 4, last - 1, rng.Range(1, last-1)}
+	for _, c := range cuts {
+		if c >= 1 && c < last {
+			vs = append(vs, variant{fmt.Sprintf("last-entry-cut-by-%d-of-%d", c, last), hdr[:len(hdr)-c]})
+		}
+	}
+	for i := 0; i < 2; i++ {
+		e := rng.Intn(len(sizes))
+		off := 0
+		for _, sz := range sizes[:e] {
+			off += sz
+		}
+		h := append([]byte{}, hdr...)
+		h[off] = byte(rng.Range(4, 255))
+		vs = append(vs, variant{fmt.Sprintf("type-byte-%d-at-entry-%d", h[off], e), h})
+	}
+	for _, n := range []int{1, 4, 36, rng.Range(1, 36)} {
+		vs = append(vs, variant{fmt.Sprintf("trailing-%d-bytes", n), append(append([]byte{}, hdr...), rng.Bytes(n)...)})
+	}
+	for _, v := range vs {
+		nonce := crypto.NewRandomNonce()
+		f := append([]byte{}, blobArea...)
+		start := len(f)
+		f = append(f, nonce...)
+		f = k.Seal(f, nonce, v.Plain, nil)
+		f = binary.LittleEndian.AppendUint32(f, uint32(len(f)-start))
+		replay := map[string]any{"case": ci, "authentic_malformed": v.Name, "blobs": len(specs), "header_plaintext_len": len(v.Plain)}
+		got, _, err, pan := verifC06List(rec, k, f, int64(len(f)), replay)
+		if !pan && err == nil {
+			rec.Violation("malformed-accepted-authentic", fmt.Sprintf("List accepted an authentic header with malformed content (%s) and returned %d entries", v.Name, len(got)), replay)
+		}
+	}
+	return len(vs)
+}
+
 func verifC06Specs(rng *verifkit.RNG, n int, smallOnly bool) ([]verifBlobSpec, [][]byte, string) {
 	cmode := rng.Intn(4) // 0 all plain, 1 all compressed, 2/3 mixed
 	specs := make([]verifBlobSpec, n)
@@ -475,6 +544,12 @@ func TestVerifC06(t *testing.T) {
 			rec.Count("mutations_"+c, int64(v))
 		}
 		rec.CaseN(verifkit.Sig("mut|", shape, "|", cmode, "|hdr=", hdrBytes, "|all=", all), true, int64(n))
+		if ci%4 == 0 || shape == "eager-exact" {
+			// cross-check of the harness' reference encoder: the well-formed reference header must list
+			na := verifC06Authentic(rec, rng, k, specs, file[:dataLen], ci)
+			rec.Count("mutations_authentic_malformed", int64(na))
+			rec.CaseN(verifkit.Sig("auth|", shape, "|", cmode, "|last=", specs[len(specs)-1].ULen != 0), true, int64(na))
+		}
 		if rec.WantSample() && len(specs) > 3 {
 			rec.Sample(map[string]any{"case": ci, "blobs": len(specs), "shape": shape, "compression": cmode, "file_bytes": len(file), "header_bytes": hdrBytes,
 				"tail_mutations": n, "first_blob": fmt.Sprint(verifC06Expected(specs)[0]), "via_merge": viaMerge})
